@@ -212,8 +212,13 @@ def st_schedule(draw):
     for _ in range(draw(st.integers(3, 14))):
         k = draw(st.integers(0, 11))
         conn = draw(st.integers(0, 1))
-        if k <= 5:
+        if k <= 4:
             ops.append(["msg", conn, draw(st.integers(0, len(ALPHABET) - 1))])
+        elif k == 5:
+            # a REQ with several filters (several plans / one UNION) followed sooner or later by its CLOSE
+            ops.append(["multi", conn, draw(st.sampled_from(["a", "m"])), draw(st.integers(2, 4))])
+            ops.append(draw(st.sampled_from([["yield", 1], ["yield", 3], ["release", 0], ["settle"]])))
+            ops.append(["closeid", conn, ops[-2][2]])
         elif k == 6:
             ops.append(["settle"])
         elif k == 7:
@@ -272,9 +277,37 @@ class Schedule(Sub):
                     sent_reqs[ci].setdefault(str(m[1]), []).append(m[2:])
                 conns[ci].feed(m, turns)
 
+            closed_at = [dict(), dict()]      # conn -> sub id -> number of frames seen when its CLOSE had been handled
+            pending_close = [dict(), dict()]  # conn -> sub id -> True while a CLOSE is fed but maybe not handled yet
+
+            async def note_handled():
+                # a CLOSE counts as handled once the handler finished with it, every notification task that was
+                # already under way has run, and the sender task has drained what was queued before (all MAY)
+                for ci2, c2 in enumerate(conns):
+                    if pending_close[ci2] and c2.idle() and all(t.done() for t in rig.storage._notify_sub_tasks):
+                        for _ in range(4):
+                            await asyncio.sleep(0)
+                        if c2.idle() and all(t.done() for t in rig.storage._notify_sub_tasks):
+                            for sid in list(pending_close[ci2]):
+                                closed_at[ci2][sid] = len(c2.out)
+                                del pending_close[ci2][sid]
+
             for op in case["ops"]:
                 if op[0] == "msg" and alive[op[1]]:
-                    feed(op[1], ALPHABET[op[2]])
+                    m = ALPHABET[op[2]]
+                    if m[0] == "CLOSE":
+                        pending_close[op[1]][str(m[1])] = True
+                    elif m[0] == "REQ":
+                        pending_close[op[1]].pop(str(m[1]), None)
+                        closed_at[op[1]].pop(str(m[1]), None)
+                    feed(op[1], m)
+                elif op[0] == "multi" and alive[op[1]]:
+                    pending_close[op[1]].pop(op[2], None)
+                    closed_at[op[1]].pop(op[2], None)
+                    feed(op[1], ["REQ", op[2]] + [F1, F2, {"kinds": [1, 2]}, {"authors": [PRE[0]["pubkey"]]}][: op[3]])
+                elif op[0] == "closeid" and alive[op[1]]:
+                    pending_close[op[1]][op[2]] = True
+                    feed(op[1], ["CLOSE", op[2]])
                 elif op[0] == "settle":
                     if pool:
                         pool.park = False  # settling means: every job gets to run
@@ -298,12 +331,28 @@ class Schedule(Sub):
                 elif op[0] == "disconnect" and alive[op[1]]:
                     alive[op[1]] = False
                     conns[op[1]].feed(None)
-                if rig.stuck:
+                for _ in range(2):
+                    await asyncio.sleep(0)
+                await note_handled()
+                # no EVENT frame for a subscription whose CLOSE has been handled (until a new REQ re-uses the id)
+                for ci2, c2 in enumerate(conns):
+                    for sid, n_at in closed_at[ci2].items():
+                        late = [f for f in c2.frames(n_at) if f[0] == "EVENT" and f[1] == sid]
+                        if late:
+                            viol.append(V("event-after-close", "after CLOSE no further event is sent for the subscription",
+                                          conn=ci2, sub=sid, late=len(late)))
+                if rig.stuck or viol:
                     break
             if pool:
                 pool.park = False
                 pool.release_all()
             await rig.settle()
+            await note_handled()
+            for ci2, c2 in enumerate(conns):
+                for sid, n_at in closed_at[ci2].items():
+                    if not viol and [f for f in c2.frames(n_at) if f[0] == "EVENT" and f[1] == sid]:
+                        viol.append(V("event-after-close", "after CLOSE no further event is sent for the subscription",
+                                      conn=ci2, sub=sid))
             # probes: every live connection still answers a REQ
             for ci, c in enumerate(conns):
                 if alive[ci] and c.closed is None and not c.task.done() and not rig.stuck:
